@@ -128,6 +128,31 @@ pub fn execute(space: &Space, c: &Case) -> Outcome {
 	}
 }
 
+/// A call is counted as non-trivial when the decoder returned a value, or consumed at least 16 input bytes before it
+/// refused (it got past the leading fields), or - string decoders, which report no consumption - the input has at
+/// least 2 characters; and always when the outcome is not ok|err.
+pub fn nontrivial(space: &Space, c: &Case, o: &Outcome) -> bool {
+	o.out != "err" || o.res.consumed >= 16 || (space.targets[c.target].kind == TKind::Str && c.bytes.len() >= 2)
+}
+
+/// FNV-1a over everything that identifies a call: decoder, reader, version, chain type, check parameters, input bytes
+pub fn case_hash(c: &Case) -> u64 {
+	let mut h: u64 = 0xcbf29ce484222325;
+	let mut eat = |b: &[u8]| {
+		for x in b {
+			h ^= *x as u64;
+			h = h.wrapping_mul(0x100000001b3);
+		}
+	};
+	eat(&(c.target as u32).to_le_bytes());
+	eat(c.rd.name().as_bytes());
+	eat(&c.ver.to_le_bytes());
+	eat(c.ct.name().as_bytes());
+	eat(&c.aux.to_le_bytes());
+	eat(&c.bytes);
+	h
+}
+
 pub fn case_json(space: &Space, idx: usize, c: &Case) -> Value {
 	json!({"i": idx, "dec": space.targets[c.target].name, "rd": c.rd.name(), "ver": c.ver, "ct": c.ct.name(),
 		"hex": hex(&c.bytes), "aux": c.aux.to_string(), "ctx": c.ctx.as_ref().map(|x| hex(x)), "origin": c.origin})
@@ -160,16 +185,37 @@ pub fn begin_event(space: &Space, idx: usize, c: &Case) -> Value {
 		"stream": space.targets[c.target].kind == TKind::Stream, "len": c.bytes.len()})
 }
 
+fn flush_sums(space: &Space, w: &mut Nd, sums: &mut BTreeMap<(usize, &'static str, u32, &'static str), Sum>) {
+	for ((t, rd, ver, ct), s) in std::mem::take(sums) {
+		w.put(&json!({"k": "Sum", "dec": space.targets[t].name, "rd": rd, "ver": ver, "ct": ct, "n": s.n, "ok": s.ok, "err": s.err,
+			"post_ok": s.post_ok, "bytes": s.bytes, "reads": clamp(s.reads), "maxpeak": clamp(s.maxpeak), "wp": clamp(s.wp), "wl": s.wl, "hp": clamp(s.hp), "hl": s.hl, "seeds": s.seeds, "seeds_ok": s.seeds_ok}));
+	}
+	w.flush();
+}
+
 /// run cases [from, to); returns process exit code
-pub fn run(space: &Space, bounds: &Bounds, from: usize, to: usize, out: &str, bad_out: &str, single: bool) -> i32 {
+pub fn run(space: &Space, bounds: &Bounds, from: usize, to: usize, out: &str, bad_out: &str, single: bool, skip: &str) -> i32 {
+	let skip: Vec<&str> = skip.split('|').filter(|x| !x.is_empty()).collect();
+	let mut skipped = 0u64;
 	install_panic_hook();
 	let mut w = Nd::create(out);
 	let mut bad = Nd::create(bad_out);
 	let mut sums: BTreeMap<(usize, &'static str, u32, &'static str), Sum> = BTreeMap::new();
 	let mut near = 0u64;
 	let mut seeds_failed: Vec<Value> = vec![];
+	// 64-bit hashes of the non-trivial calls (see `nontrivial`), merged and de-duplicated by the parent
+	let mut nt = BufWriter::new(File::create(format!("{}.nt", out)).expect("nt file"));
 	for idx in from..to.min(space.descs.len()) {
+		if (idx - from) % 1000 == 999 {
+			nt.flush().unwrap();
+			// checkpoint: a later abort / kill of this process must not lose the calls already made
+			flush_sums(space, &mut w, &mut sums);
+		}
 		let c = space.materialize(idx);
+		if !single && skip.contains(&space.targets[c.target].name) {
+			skipped += 1;
+			continue;
+		}
 		if single {
 			bad.put(&case_json(space, idx, &c));
 			bad.flush();
@@ -177,6 +223,9 @@ pub fn run(space: &Space, bounds: &Bounds, from: usize, to: usize, out: &str, ba
 		raw_stdout(&format!("B {}\n", idx));
 		let o = execute(space, &c);
 		let len = c.bytes.len() as u64;
+		if nontrivial(space, &c, &o) {
+			nt.write_all(&case_hash(&c).to_le_bytes()).unwrap();
+		}
 		let bound = bounds.of(space.targets[c.target].name, c.ct, len);
 		let stream = space.targets[c.target].kind == TKind::Stream;
 		let progress_ok = !stream || o.res.reads <= len + 1;
@@ -230,15 +279,16 @@ pub fn run(space: &Space, bounds: &Bounds, from: usize, to: usize, out: &str, ba
 				"rd": c.rd.name(), "out": o.out, "post_ok": o.res.post_ok}));
 		}
 	}
-	for ((t, rd, ver, ct), s) in sums {
-		w.put(&json!({"k": "Sum", "dec": space.targets[t].name, "rd": rd, "ver": ver, "ct": ct, "n": s.n, "ok": s.ok, "err": s.err,
-			"post_ok": s.post_ok, "bytes": s.bytes, "reads": clamp(s.reads), "maxpeak": clamp(s.maxpeak), "wp": clamp(s.wp), "wl": s.wl, "hp": clamp(s.hp), "hl": s.hl, "seeds": s.seeds, "seeds_ok": s.seeds_ok}));
+	flush_sums(space, &mut w, &mut sums);
+	if skipped > 0 {
+		w.put(&json!({"k": "Skipped", "n": skipped}));
 	}
 	if !seeds_failed.is_empty() {
 		w.put(&json!({"k": "SeedsFailed", "list": seeds_failed}));
 	}
 	w.flush();
 	bad.flush();
+	nt.flush().unwrap();
 	raw_stdout("D\n");
 	0
 }
